@@ -97,6 +97,13 @@ theorem ex_decide_chol : NetDecision.decide (1 : ℚ) (worldOf qPE (obsNet .chol
 theorem ex_decide_gso : NetDecision.decide (1 : ℚ) (worldOf qPE (obsNet .gso)) exCfg
     = ([("P", .singular_xy)], .adjusted 0) := by decide +kernel
 
+/-- the svd object on the same network: refused on the full configuration (defect 1), the loop removes `P` and
+    adjusts the rest -/
+theorem ex_decide_svd : NetDecision.decide (1 : ℚ) (worldOf qPE (obsNet .svd)) exCfg
+    = ([("P", .singular_xy)], .adjusted 0) := by decide +kernel
+theorem ex_second_svd : solveOf .svd (qPE exCfg2) = some (.ok 0) ∧ readOf .svd (qPE exCfg2) = (none, 0, []) := by
+  decide +kernel
+
 /-- `singular_coords` does not fire on `exCfg` (one zero column is not caught) -/
 theorem ex_noSingular : @NoSingular ℚ (trigOfField exTrig) exBase exCfg := by
   intro a h ha hp
